@@ -83,7 +83,8 @@ class K:
         return marker
 '''
 
-CONDS_FN = ['v > 2', 'flag', 'not flag', 'v % 2 == 0', 'GLOBAL_LIMIT < v', 'helper(v)', 'obj.ok', 'len(name) == 3',
+CONDS_FN = ['any(len(n_) == len(name) for n_ in NAMES)', '(lambda k: k + v)(1) > 2', 'sum(1 for _ in range(v)) > 1',
+            'v > 2', 'flag', 'not flag', 'v % 2 == 0', 'GLOBAL_LIMIT < v', 'helper(v)', 'obj.ok', 'len(name) == 3',
             'name in NAMES', 'True', 'False', '', '   ', 'v / 0 > 1', 'undefined_zz > 1', 'raise_base()',
             'fail_with("1")', 'fail_with("true")', 'fail_with("boom")', 'obj.missing', 'v == 1 or flag',
             'isinstance(v, int) and v >= GLOBAL_LIMIT', 'all([flag, obj.ok])', 'uuid is not None',
@@ -92,7 +93,8 @@ CONDS_FN = ['v > 2', 'flag', 'not flag', 'v % 2 == 0', 'GLOBAL_LIMIT < v', 'help
             'FrameCollector is not None', 'bool(v)', 'v in (1, 3, 5)']
 CONDS_MOD = ['GLOBAL_LIMIT == 3', 'GLOBAL_LIMIT > 5', 'helper is not None', 'len(NAMES) == 3', 'nope_zz', '',
              'uuid is not None', '"MOD_MARK" in dir()']
-EXPRS = ['v', 'name', 'v + 1', 'GLOBAL_LIMIT', 'NAMES', 'helper(v)', 'len(NAMES)', 'NAMES[0] + name', 'obj.ok',
+EXPRS = ['sum(x * v for x in [1, 2, 3])', '(lambda: name.upper())()', 'sorted(n_ + name for n_ in NAMES)',
+         'v', 'name', 'v + 1', 'GLOBAL_LIMIT', 'NAMES', 'helper(v)', 'len(NAMES)', 'NAMES[0] + name', 'obj.ok',
          'obj.tags', 'sorted(NAMES)', 'max(v, GLOBAL_LIMIT)', 'uuid', 'FrameCollector', 'time_ns', 'deep',
          'undefined_zz', '1/0', 'fail_with("x")', 'raise_base()', 'str(flag)', '[v, GLOBAL_LIMIT]', 'abs(-v)']
 EXPRS_INNER = ['captured', 'captured + v', 'use']
@@ -108,7 +110,7 @@ def plan(tier, seed):
 
 def rec_eval(expr, frame):
     try:
-        return eval(expr, frame.f_globals, frame.f_locals), None
+        return snapcheck.eval_in_frame(expr, frame), None
     except BaseException as e:  # noqa
         return None, e
 
@@ -150,6 +152,8 @@ def case_cond(seed, out, spec, wd):
         watches = []
         args['snapshot'] = 'no_collect'
         if kind == 'log':
+            # (a ':' inside a log field starts a format specification: expressions with a lambda are not used as fields)
+            exprs = [e for e in exprs if ':' not in e]
             args['log_msg'] = ' | '.join('{%s}' % e for e in exprs) or 'plain'
         else:
             metrics = [MetricDefinition('m%d' % i, 'gauge', [], e) for i, e in enumerate(exprs)] or [
